@@ -101,7 +101,7 @@ def shape_block_arg(nested):
     return sh
 
 
-def cases(E):
+def own_cases(E):
     cs = []
     for nested in (False, True):
         cs.append(Case(H + "code_block_argument_contract", "spliced " + ("two scopes down" if nested else "directly in the body"), shape_block_arg(nested),
@@ -114,6 +114,15 @@ def cases(E):
         for sib in (False, True):
             cs.append(Case(H + "deferred_application_contract", "forward label" + (" + coinciding name" if co else "") + (", after a closed sibling scope defining that name" if sib else ""),
                            shape_deferred(co, sib), target=[G + "generate_macro_application", "a816.parse.nodes.SymbolNode.pc_after"]))
+    return cs
+
+
+def cases(E):
+    cs = own_cases(E)
+    # scope discipline of the expansion (every scoped construct opens exactly its own scope, announced and closed by the position nodes the later
+    # passes replay; errors of expanded statements propagate): labels and parameters live in those scopes
+    from vf.props import expansion
+    cs += expansion.cases(E)
     return cs
 
 
